@@ -892,7 +892,7 @@ impl Property for C14 {
     type Case = Case;
 
     fn fuzz(&self) -> Option<FuzzSpec> {
-        Some(FuzzSpec { target: "c14", jobs: 8, runs: 1_000_000, max_len: 400, seeds: 300 })
+        Some(FuzzSpec { target: "c14", jobs: 8, runs: 6_000_000, max_len: 400, seeds: 300 })
     }
 
     /// byte 0: kind (encode / decode / reject by removal / reject by appending / arbitrary);
